@@ -59,7 +59,7 @@ def run(ctx):
                 '(6-36 byte inputs, random schedules) validated by TLC.')
     ctx.assumptions += [
         'RS menu: newline, one byte (a, 0xFF), "", one multi-byte character (e-acute), regexes ab+ a|ab b*a \\n+ ab [ab]a '
-        '(thorough adds aab|b, x|\\r?\\n, ";", paragraph mode with CR); alphabets of 3-4 bytes chosen per RS',
+        '(thorough and the random walks add aab|b, abbb|b, x|\\r?\\n, ";", paragraph mode with CR); alphabets of 3-4 bytes chosen per RS',
         'RT is compared with the specification only for a regular-expression RS (the matched text, empty after an unterminated '
         'last record); in the other modes RT is only required to be the same under every delivery schedule',
         'paragraph mode with carriage returns in the input: records compared across schedules only (the statement does not say '
@@ -81,12 +81,12 @@ def run(ctx):
     gen = ctx.cfg('Gen_RecordReader', constants={'MaxLen': 6 if q else 8, 'EmitMin': 0, 'Sel': '"base"'})
     ctx.tlc('Gen_RecordReader', gen, capture='cases.ndjson', timeout=1500, heap='8g')
     if not q:
-        gen2 = ctx.cfg('Gen_RecordReader', name='Gen_RecordReader_extra', constants={'MaxLen': 7, 'EmitMin': 0, 'Sel': '"extra"'})
+        gen2 = ctx.cfg('Gen_RecordReader', name='Gen_RecordReader_extra', constants={'MaxLen': 6, 'EmitMin': 0, 'Sel': '"extra"'})
         ctx.tlc('Gen_RecordReader', gen2, capture='cases.ndjson', timeout=1500, heap='8g')
     # longer inputs from random walks (reduced schedule set)
     sim = ctx.cfg('Gen_RecordReader', name='Gen_RecordReader_sim',
                   constants={'MaxLen': 20 if q else 40, 'EmitMin': 18 if q else 30, 'Sel': '"all"'})
-    ctx.tlc('Gen_RecordReader', sim, capture='cases.ndjson', simulate=120 if q else 500, depth=22 if q else 42, workers=1, timeout=900)
+    ctx.tlc('Gen_RecordReader', sim, capture='cases.ndjson', simulate=100 if q else 200, depth=22 if q else 42, workers=1, timeout=900)
     os.environ['C07_EDGEMOD'] = '40' if q else '25'
     os.environ['VERIF_WORKERS'] = str(ctx.cores)
     ctx.replay('cases.ndjson', label='gen-recordreader', min_cases=1000, corrupt=corrupt)
@@ -105,8 +105,12 @@ def run(ctx):
     for r in rejects:
         info = r['info']
         start = [e for e in r['trace'] if e.get('ev') == 'start'][0]
+        # the rejected run as a Gen_RecordReader-format case (replayable with ./check C07 --replay): the whole
+        # Records(input, RS) of the specification and the recorded delivery schedule
+        case = dict(fam='rr', name=info['name'], kind=info['kind'], cls=info['cls'], rstext=start['rstext'], input=start['input'],
+                    recs=info['all'], judge=True, judgert=info['kind'] == 're', prefixok=False,
+                    sched=[e['n'] for e in r['trace'] if e.get('ev') == 'read'])
         ctx.add_failure(f"C07/{info['cls']}/{info['what']}/chunked",
                         f"recorded run rejected by Trace_RecordReader at event {r['line']}: {info['what']} "
                         f"(RS entry {info['name']}, {info['delivered']} bytes delivered)",
-                        case=dict(fam='trace', trace=r['trace'][:r['pos'] + 1]),
-                        expected=info.get('expected'), observed=r['trace'][r['pos']])
+                        case=case, expected=info.get('expected'), observed=r['trace'][r['pos']])
